@@ -45,7 +45,7 @@ func genC14(t *rapid.T) interface{} {
 		ns := rapid.IntRange(1, maxSteps).Draw(t, "nsteps")
 		var p []string
 		for j := 0; j < ns; j++ {
-			p = append(p, rapid.SampledFrom([]string{"acquire", "acquire", "get", "create", "update", "update"}).Draw(t, "step"))
+			p = append(p, rapid.SampledFrom([]string{"acquire", "acquire", "get", "create", "update", "update", "release"}).Draw(t, "step"))
 		}
 		c.Programs = append(c.Programs, p)
 	}
@@ -100,6 +100,7 @@ func c14RunOnce(c *c14Case, choices []int) (*c14Result, error) {
 	results := make([][]apiRes, n)
 	commitOK := make([]int, n)
 	curStep := make([]string, n) // API call in flight per candidate
+	inAPIGet := make([]bool, n)  // only what a candidate reads through the API's Get counts as "what it last read"
 	window := make([][2]int, n)  // first/last global step index of get->write windows, for the overlap label
 	for i := 0; i < n; i++ {
 		i := i
@@ -113,7 +114,9 @@ func c14RunOnce(c *c14Case, choices []int) (*c14Result, error) {
 			mu.Lock()
 			defer mu.Unlock()
 			if err == nil {
-				observed[i], hasObserved[i] = cp(val), true
+				if inAPIGet[i] {
+					observed[i], hasObserved[i] = cp(val), true
+				}
 				if !bytes.Equal(val, record) && modelErr == nil {
 					modelErr = fmt.Errorf("candidate %d read a record that is not the last accepted write", i)
 				}
@@ -155,6 +158,16 @@ func c14RunOnce(c *c14Case, choices []int) (*c14Result, error) {
 		shims[i] = sh
 		locks[i] = election.NewResourceLockManager(election.Config{Prefix: Prefix, Identity: fmt.Sprintf("cand-%d", i), Timeout: 30 * time.Second}, sh).GetResourceLock()
 	}
+	apiGet := func(i int) error {
+		mu.Lock()
+		inAPIGet[i] = true
+		mu.Unlock()
+		_, err := locks[i].Get()
+		mu.Lock()
+		inAPIGet[i] = false
+		mu.Unlock()
+		return err
+	}
 	programs := make([]func(ctx context.Context), n)
 	for i := 0; i < n; i++ {
 		i := i
@@ -163,7 +176,7 @@ func c14RunOnce(c *c14Case, choices []int) (*c14Result, error) {
 			for _, step := range c.Programs[i] {
 				switch step {
 				case "get":
-					_, err := locks[i].Get()
+					err := apiGet(i)
 					results[i] = append(results[i], apiRes{"get", err})
 				case "create":
 					mu.Lock()
@@ -177,8 +190,16 @@ func c14RunOnce(c *c14Case, choices []int) (*c14Result, error) {
 					mu.Unlock()
 					err := locks[i].Update(mkRecord(id))
 					results[i] = append(results[i], apiRes{"update", err})
+				case "release":
+					// what client-go's release() writes: a record with an empty holder
+					mu.Lock()
+					curStep[i] = "update"
+					mu.Unlock()
+					rec := mkRecord("")
+					err := locks[i].Update(rec)
+					results[i] = append(results[i], apiRes{"update", err})
 				case "acquire":
-					_, err := locks[i].Get()
+					err := apiGet(i)
 					results[i] = append(results[i], apiRes{"get", err})
 					if err != nil {
 						if strings.Contains(err.Error(), "not found") {
@@ -302,7 +323,7 @@ func runC14(ci interface{}, st *CaseStats) error {
 
 var specC14 = &Spec{
 	ID:          "C14",
-	Rule:        "case = 2..3 candidates (real resourcelock.Interface from election.NewResourceLockManager over one shared store, each behind its own shim), each with 1..5 steps from {get, create, update, acquire = client-go protocol get->create|update} (so protocol-breaking programs occur), optionally a pre-existing record, and a schedule over the storage steps; exhaustive shards: 2 candidates x <=3 steps with EVERY schedule enumerated per case. Oracle = register model of the record in commit order: a create is accepted only on an absent record, an update only if the record equals what that candidate last read or created, API success <=> storage accepted the write, stored record = last accepted write, every read returns the last accepted write. Non-trivial = some candidate performs a step between another candidate's get and its following write; distinct = SHA-1 of the case",
+	Rule:        "case = 2..3 candidates (real resourcelock.Interface from election.NewResourceLockManager over one shared store, each behind its own shim), each with 1..5 steps from {get, create, update, release = update to an empty holder, acquire = client-go protocol get->create|update} (so protocol-breaking programs occur), optionally a pre-existing record, and a schedule over the storage steps; exhaustive shards: 2 candidates x <=3 steps with EVERY schedule enumerated per case. Oracle = register model of the record in commit order: a create is accepted only on an absent record, an update only if the record equals what that candidate last read or created, API success <=> storage accepted the write, stored record = last accepted write, every read returns the last accepted write. Non-trivial = some candidate performs a step between another candidate's get and its following write; distinct = SHA-1 of the case",
 	Gen:         genC14,
 	New:         func() interface{} { return &c14Case{} },
 	Run:         runC14,
